@@ -50,7 +50,49 @@ def build_real(node, leaves):
         f._keepalive = rd
         leaves.append(io.BytesIO(data))
         return f
+    if kind in ('ctr', 'twl', 'cbc'):
+        import envsetup
+        e = envsetup.install()
+        eng = e.CryptoEngine()
+        inner = build_real(node[3], leaves)
+        if kind == 'cbc':
+            eng.set_normal_key(0x10, node[1])
+            return eng.create_cbc_io(0x10, inner, node[2])
+        slot = 0x10 if kind == 'ctr' else 0x01
+        eng.set_normal_key(slot, node[1])
+        return eng.create_ctr_io(slot, inner, node[2])
     raise ValueError(kind)
+
+
+def ecb(key, blk):
+    from Cryptodome.Cipher import AES
+    return AES.new(key, AES.MODE_ECB).encrypt(blk)
+
+
+def ctr_xor(key, ctr, data, twl):
+    """whole-stream CTR transform computed with single-block ECB calls only"""
+    out = bytearray(len(data))
+    for blk in range((len(data) + 15) // 16):
+        ks = ecb(key, ((ctr + blk) % (1 << 128)).to_bytes(16, 'big'))
+        if twl:
+            ks = ks[::-1]
+        for j in range(16):
+            i = blk * 16 + j
+            if i < len(data):
+                out[i] = data[i] ^ ks[j]
+    return bytes(out)
+
+
+def cbc_plain(key, iv, ct):
+    from Cryptodome.Cipher import AES
+    dec = AES.new(key, AES.MODE_ECB)
+    out = bytearray()
+    prev = iv
+    for b in range(0, len(ct) - len(ct) % 16, 16):
+        blk = ct[b:b + 16]
+        out += bytes(x ^ y for x, y in zip(dec.decrypt(blk), prev))
+        prev = blk
+    return bytes(out)
 
 
 def node_sexp(node):
@@ -63,6 +105,8 @@ def node_sexp(node):
         return ('merge',) + tuple((node_sexp(n), sz) for n, sz in node[1])
     if kind == 'cw':
         return ('cw', node_sexp(node[1]))
+    if kind in ('ctr', 'twl', 'cbc'):
+        return (kind, node[1], node[2], node_sexp(node[3]))
     raise ValueError(kind)
 
 
@@ -84,6 +128,10 @@ def view_content(node, bases, i=None):
             return b''.join(go(c)[:sz] for c, sz in n[1])
         if k == 'cw':
             return go(n[1])
+        if k in ('ctr', 'twl'):
+            return ctr_xor(n[1], n[2], go(n[3]), k == 'twl')
+        if k == 'cbc':
+            return cbc_plain(n[1], n[2], go(n[3]))
         raise ValueError(k)
     return go(node)
 
@@ -94,7 +142,22 @@ def is_fixed(node):
         return False
     if k == 'cw':
         return is_fixed(node[1])
+    if k in ('ctr', 'twl', 'cbc'):
+        return is_fixed(node[3])
     return True
+
+
+def is_readonly(node):
+    k = node[0]
+    if k in ('merge', 'opf', 'cbc'):
+        return True
+    if k == 'sub':
+        return is_readonly(node[3])
+    if k == 'cw':
+        return is_readonly(node[1])
+    if k in ('ctr', 'twl'):
+        return is_readonly(node[3])
+    return False
 
 
 def clamps(node):
@@ -104,6 +167,8 @@ def clamps(node):
         return False
     if k == 'cw':
         return clamps(node[1])
+    if k in ('ctr', 'twl', 'cbc'):
+        return clamps(node[3])
     return True
 
 
@@ -124,6 +189,11 @@ def well_formed(node):
         return ok, tot
     if k == 'cw':
         return well_formed(node[1])
+    if k in ('ctr', 'twl'):
+        return well_formed(node[3])
+    if k == 'cbc':
+        ok, ln = well_formed(node[3])
+        return ok and ln % 16 == 0 and len(node[2]) == 16, ln
 
 
 def abs_window(node):
@@ -133,6 +203,8 @@ def abs_window(node):
         return 0, None
     if k == 'cw':
         return abs_window(node[1])
+    if k in ('ctr', 'twl', 'cbc'):
+        return abs_window(node[3])
     if k == 'sub':
         r = abs_window(node[3])
         if r is None:
